@@ -90,6 +90,7 @@ def register(chk):
     chk.add("wnaf/doubleadd wrappers:out=base", c06_loops.ob_compose, True)
     chk.add("Fq12::exponentiate_gt:bases:out=a", c07.ob_gt_bases, True)
     chk.add("Fq12::exponentiate_gt:loop:out=a", c07.ob_gt_loop, True)
+    chk.add("Fq12::exponentiate_gt:whole-runs:out=a", c07.ob_gt_concrete, True)
     chk.add("Fq12::square_cyclotomic:out=a", c04_more.ob_square_cyclotomic, True)
     chk.add("Fq12::map_to_cyclotomic:out=a", c04_more.ob_map_to_cyclotomic)
     chk.add("final_exponentiation:out=a", c01.ob_final_exponent, True)
